@@ -372,16 +372,29 @@ func (self Reflect) childMap(v reflect.Value) node.Node {
 	return &Basic{
 		Peekable: v.Interface(),
 		OnChoose: func(state *node.Selection, choice *meta.Choice) (m *meta.ChoiceCase, err error) {
-			for _, c := range choice.Cases() {
-				for _, d := range c.DataDefinitions() {
-					mapKey := reflect.ValueOf(d.Ident())
-					mapVal := v.MapIndex(mapKey)
-					if mapVal.IsValid() {
-						return c, nil
+			// a case is selected when the map holds one of its nodes.  a choice nested in a
+			// case has no entry of its own, so look through it.  cases are tried in the order
+			// of their names so that the answer does not depend on map iteration.
+			var selected func(c *meta.Choice) *meta.ChoiceCase
+			selected = func(c *meta.Choice) *meta.ChoiceCase {
+				for _, ident := range c.CaseIdents() {
+					kase := c.Cases()[ident]
+					for _, d := range kase.DataDefinitions() {
+						if nested, isChoice := d.(*meta.Choice); isChoice {
+							if found := selected(nested); found != nil {
+								return kase
+							}
+							continue
+						}
+						mapKey := reflect.ValueOf(d.Ident())
+						if v.MapIndex(mapKey).IsValid() {
+							return kase
+						}
 					}
 				}
+				return nil
 			}
-			return nil, nil
+			return selected(choice), nil
 		},
 		OnChild: func(r node.ChildRequest) (node.Node, error) {
 			mapKey := reflect.ValueOf(r.Meta.Ident())
